@@ -2073,7 +2073,7 @@ func extractCensusC06(repo, gendir string) {
 }
 
 // diffExpectation: the reviewed tables of FactsAgree/<mod>.lean are 5-tuples of string literals, one per line, before the
-// marker `-- ALLOWLIST` (the allowlist repeats the class-d sites). Differences are printed as
+// marker `-- ALLOWLIST-SECTION` (the allowlist repeats the class-d sites). Differences are printed as
 // `census-new-site <mod> <file>:<func>: …`, `census-changed-site …` (same file, function and kind), `census-gone-site …`.
 func (c *c06Census) diffExpectation(mod, path string) {
 	data, err := os.ReadFile(path)
@@ -2081,7 +2081,7 @@ func (c *c06Census) diffExpectation(mod, path string) {
 		return
 	}
 	text := string(data)
-	if i := strings.Index(text, "-- ALLOWLIST"); i >= 0 {
+	if i := strings.Index(text, "-- ALLOWLIST-SECTION"); i >= 0 {
 		text = text[:i]
 	}
 	re := regexp.MustCompile(`(?m)^\s*\("([^"]*)", "([^"]*)", "([^"]*)", "([^"]*)", "([^"]*)"\)`)
